@@ -42,6 +42,10 @@ Inductive ecase :=
          (pj : result json)        (* type_to_json of a same-site copy of t with every TypedDict's fields
                                       reversed; OutOfModel when t has no TypedDict *)
          (ptext_same : bool)       (* the raw JSON TEXT of that copy == the raw text of t's encoding (true when no copy) *)
+         (wj : result ty)          (* the decoded copy as its CONSUMERS read it: passed once through the generic
+                                      TypeRewriter, which takes every anonymous TypedDict apart with
+                                      typing.field_annotations and rebuilds it (what the rewriters, shrink_types and
+                                      the stub generator do with decoded types); OutOfModel when t has no TypedDict *)
 | ECDecode (j : json) (id : result ty)            (* decoder edge stream *)
 | ECTrace (expect_importable : bool) (tr : trace)
           (ir : result row)        (* CallTraceRow.from_trace(tr) by /repo *)
@@ -131,6 +135,14 @@ Let hd := tbl_hidden (w_hid w).
 
 Definition all_importable (t : ty) : bool := forallb (importableb cn ev hd) (classes t).
 
+(* some class below t cannot be found at all under its own name (a class defined inside a function, a deleted name,
+   a module that does not exist): a row mentioning it — at any depth — must FAIL to decode; it must never decode
+   to some other type (e.g. with Any in that place) *)
+Definition unresolvable (t : ty) : bool :=
+  existsb (fun c => match resolve ev hd (fst (cn c)) (snd (cn c)) with
+                    | LNoModule | LNoAttr => true
+                    | _ => false end) (classes t).
+
 (* ----- types ----- *)
 (* "decodes back to a structurally identical type" on the implementation's own output *)
 Definition type_prop_ok (t : ty) (ij : result json) (id : result ty) : bool :=
@@ -163,13 +175,23 @@ Definition perm_ok (ij pj : result json) : bool :=
   | _, _ => false
   end.
 
+(* the decoded type is structurally identical to the original also for the code that reads it *)
+Definition consumers_ok (t : ty) (wj : result ty) : bool :=
+  match wj with
+  | Ok t'' => negb (opaque_ty t'') && corrb t t''
+  | OutOfModel => true
+  | Raises _ => false
+  end.
+
 Definition verdict_type (site : string) (t : ty) (ij : result json) (id : result ty) (rj pj : result json)
-           (ptext_same : bool) : nat :=
+           (ptext_same : bool) (wj : result ty) : nat :=
   if negb (well_formed t) then 3 else
   let in_scope := negb (has_fwd t) && all_importable t in
   if in_scope && negb (type_prop_ok t ij id) then 2
+  else if negb (has_fwd t) && unresolvable t && is_ok ij && is_ok id then 2
   else if in_scope && negb (type_struct_ok (same_order t id) ij rj pj) then 2
   else if in_scope && negb ptext_same then 2
+  else if in_scope && negb (consumers_ok t wj) then 2
   else
     if negb (res_json_eqb (type_to_json cn site t) ij) then 1 else
     if negb (match pj with OutOfModel => true | _ => res_json_eqb (type_to_json cn site t) pj end) then 1 else
@@ -215,6 +237,7 @@ Definition verdict_trace (expect : bool) (tr : trace) (ir : result row) (ib : re
   if negb (forallb well_formed (trace_types tr) && nodup_strb (map fst (tr_args tr))) then 3 else
   let in_scope := expect && forallb (fun t => encodable t && all_importable t) (trace_types tr) in
   if in_scope && negb (trace_prop_ok tr ir ib) then 2
+  else if existsb unresolvable (trace_types tr) && is_ok ir && is_ok ib then 2
   (* rows are a function of the structure: same stored text whatever the insertion orders were.  This clause
      needs no importable function, only serialisable types *)
   else if forallb (fun t => encodable t && all_importable t) (trace_types tr) && negb text_same then 2
@@ -222,17 +245,17 @@ Definition verdict_trace (expect : bool) (tr : trace) (ir : result row) (ib : re
   else if forallb (fun t => encodable t && all_importable t) (trace_types tr) && negb store_same then 2
   else
     (* the by-construction label of the fixture and the model's notion of an importable function agree *)
-    if negb (Bool.eqb expect (importable_funcb fn ev (tr_func tr))) then 1 else
+    if negb (Bool.eqb expect (importable_funcb cn fn ev (tr_func tr))) then 1 else
     let mr := from_trace cn fn (* traced types are fresh: *) "monkeytype.typing" tr in
     if negb (res_row_eqb mr ir) then 1 else
     match ir with
-    | Ok r => if res_dtrace_corrb (to_trace ev hd r) ib then 0 else 1
+    | Ok r => if res_dtrace_corrb (to_trace cn fn ev hd r) ib then 0 else 1
     | _ => 0
     end.
 
 Definition verdict (c : ecase) : nat :=
   match c with
-  | ECType site t ij id rj pj ps => verdict_type site t ij id rj pj ps
+  | ECType site t ij id rj pj ps wj => verdict_type site t ij id rj pj ps wj
   | ECDecode j id => verdict_decode j id
   | ECTrace e tr ir ib ts ss => verdict_trace e tr ir ib ts ss
   | ECAfter _ => 3
@@ -240,7 +263,7 @@ Definition verdict (c : ecase) : nat :=
 
 Definition kf_class (c : ecase) : nat :=
   match c with
-  | ECType _ t ij id _ pj ps => if ps then kf_type t ij id pj else (if has_tuplevar t then 1 else 0)
+  | ECType _ t ij id _ pj ps wj => if ps && consumers_ok t wj then kf_type t ij id pj else (if has_tuplevar t then 1 else 0)
   | ECDecode _ _ => 0
   | ECAfter _ => 0
   | ECTrace _ tr _ _ _ _ => if existsb has_tuplevar (trace_types tr) then 1 else 0
